@@ -432,6 +432,8 @@ def contReq (st : St) (toks : List String) : St × String :=
     | none => (st, "err")
     | some (ns, s) => (newWorld st ns s, s!"ok n={ns.length}")
   | ["g.deraw", _i, _fmt, _hex] => (st, "any")
+  -- round trips over a key type the model does not have (Display text and hashes collide): judged by the harness
+  | ["g.rtlossy", _i, _seed] => (st, "robust")
   -- the container with text keys: a document that could be typed arrives with its keys renamed injectively to
   -- numbers (`@abs=`) and goes through the abstract deserialiser (generic in the key type); the world is not replaced
   | ["g.destr", _i, _fmt, _hex] =>
